@@ -83,7 +83,10 @@ def answer (cls : String) (s : State) (g : Ghost) (withDB : Bool) (panics : Nat)
   let agree := modelObs == impl
   let spec := if specOK g implRead then none else some ("C09." ++ specWhy g implRead)
   let head := cls ++ ":" ++ (if g.dom then "1" else "0") ++ ":" ++ nz rd
-  pure (verdict agree spec (joinWith "\t" (head :: modelObs)))
+  -- the model observation is printed in full only when it is news (it equals
+  -- the implementation's fields on the same line otherwise)
+  let shown := if agree && spec.isNone then [head, "=impl"] else head :: modelObs
+  pure (verdict agree spec (joinWith "\t" shown))
 
 def parseU32 (s : String) : Option Nat := do
   let n ← s.toNat?
@@ -173,6 +176,70 @@ def stepConc (ins impl : List String) : Option String := do
     pure (verdict (modelObs == impl) spec (joinWith "\t" (("conc:" ++ (if g.dom then "1" else "0") ++ ":1") :: modelObs)))
   | _ => none
 
+/-! `C09.locks`: the model treats Update, the hourly flush and a read as mutually
+atomic.  The harness lists, from the sources of the tree under test, which
+locks are held (Lock immediately followed by the deferred Unlock) around the
+calls that touch the current unit / the window.  Expected facts = the locking
+discipline the model was written against; the requirement below is the part
+the atomicity assumption needs. -/
+def expectedLockFacts : List String := [
+  "call:add@Update:confMu.Lock+currMu.Lock",
+  "call:clear@handleStatsReset:none",
+  "call:clear@setLimit:none",
+  "call:dataFromUnits@getData:none",
+  "call:deserialize@New:none",
+  "call:flushDB@flush:confMu.Lock+currMu.Lock",
+  "call:getData@handleStats:confMu.RLock",
+  "call:loadUnits@TopClientsIP:confMu.RLock",
+  "call:loadUnits@getData:none",
+  "call:serialize@Close:currMu.RLock",
+  "call:serialize@flushDB:none",
+  "call:serialize@loadUnits:currMu.RLock",
+  "call:setLimit@handleStatsConfig:confMu.Lock",
+  "set:curr@New:none",
+  "set:curr@clear:currMu.Lock",
+  "set:curr@flushDB:none"]
+
+def factHolds (f : String) (lock : String) : Bool := ((f.splitOn ":").getLast?.getD "").splitOn "+" |>.contains lock
+
+def holdsAny (f : String) (locks : List String) : Bool := locks.any (factHolds f)
+
+/-- The obligation on the (regenerated) facts.  Every `add` runs under the
+exclusive current-unit lock and some configuration lock; every `flushDB` (swap
++ persist + delete) under both exclusive locks; every read of the window
+(`getData`, or `loadUnits` outside `getData`) under a configuration lock, which
+excludes the flush; `loadUnits` serialises the current unit under its lock;
+`clear` swaps the unit under the exclusive lock; no unpaired Lock; and the
+three entry points exist (a rename must not pass vacuously). -/
+def locksOK (facts : List String) : Bool :=
+  facts.any (·.startsWith "call:add@Update:") &&
+  facts.any (·.startsWith "call:flushDB@flush:") &&
+  facts.any (·.startsWith "call:getData@") &&
+  facts.any (·.startsWith "call:serialize@loadUnits:") &&
+  facts.all (fun f =>
+    (if f.startsWith "call:add@" then
+       factHolds f "currMu.Lock" && holdsAny f ["confMu.Lock", "confMu.RLock"] else true) &&
+    (if f.startsWith "call:flushDB@" then factHolds f "currMu.Lock" && factHolds f "confMu.Lock" else true) &&
+    (if f.startsWith "call:getData@" then holdsAny f ["confMu.Lock", "confMu.RLock"] else true) &&
+    (if f.startsWith "call:loadUnits@" && !f.startsWith "call:loadUnits@getData:" then
+       holdsAny f ["confMu.Lock", "confMu.RLock"] else true) &&
+    (if f.startsWith "call:serialize@loadUnits:" then holdsAny f ["currMu.Lock", "currMu.RLock"] else true) &&
+    (if f.startsWith "set:curr@clear:" then factHolds f "currMu.Lock" else true) &&
+    !f.startsWith "unpaired:" && !f.startsWith "parse-error:")
+
+def stepLocks (impl : List String) : Option String := do
+  match impl with
+  | n :: facts =>
+    let n ← n.toNat?
+    if facts.length ≠ n then none else
+    -- a T-style tie: the facts are regenerated from the tree and the obligation is
+    -- re-checked on them; `expectedLockFacts` is shown for comparison only
+    let ok := locksOK facts
+    let spec := if ok then none else some "C09.atomicity-locks"
+    let same := if facts == expectedLockFacts then "as-modelled" else "changed"
+    pure (verdict ok spec ("locks:1:1\t" ++ same ++ "\t" ++ joinWith "\t" expectedLockFacts))
+  | [] => none
+
 def step (d : DState) (line : String) : DState × String :=
   let fs := splitTab line
   match fs with
@@ -196,6 +263,8 @@ def step (d : DState) (line : String) : DState × String :=
         | _ => ({ st := none }, "bad-op")
       else if op == "C09.conc" then
         (d, (stepConc ins impl).getD "bad-op")
+      else if op == "C09.locks" then
+        (d, (stepLocks impl).getD "bad-op")
       else
         match d.st with
         | none => (d, "bad-op")
